@@ -7,6 +7,10 @@
 // Part 2 (cases ids-*): on the REAL chain (chain.New) every id handed out by the consensus queues
 // is observed (put log lines + raw store scans after every block) and checked to be unique across
 // all queues of all chains and strictly increasing for the lifetime of the chain.
+// Part 3 (cases dep-*): on the REAL chain the bytes to sign of bridge batches, as handed out at
+// batch build and after every estimate election, are compared with an independent checkpoint
+// encoder for the deployment id the chain is registered with, along registration histories (late
+// activation, compass upgrade, chain removed and re-added).
 package c05
 
 import (
@@ -27,6 +31,8 @@ func run(c fw.Case, tier string, rec *fw.Recorder) {
 		runMM(c, tier, rec)
 	case "ids":
 		runIDs(c, tier, rec)
+	case "dep":
+		runDep(c, tier, rec)
 	default:
 		rec.Inconclusive("unknown case mode " + m.Mode)
 	}
@@ -44,6 +50,7 @@ func cases(tier string, seed int64) []fw.Case {
 		cs = append(cs, fw.MkCase(fmt.Sprintf("mm-%03d", i), seed*1000003+int64(i), mmParams{Mode: "mm", Bases: bases, Multi: multi}))
 	}
 	cs = append(cs, idCases(tier, seed, nids)...)
+	cs = append(cs, depCases(tier, seed)...)
 	return cs
 }
 
@@ -54,18 +61,22 @@ func init() {
 		Rule: "part 1: seeded base items of the five turnstone action types and skyway batches (1-100 txs); for each base item every field reachable by reflection x every alternative value (>= 8 per scalar field, hostile ones included) as single-field mutants, plus 2-4-field mutants; " +
 			"a pair is non-trivial when the independently encoded delivered call (public compass ABI + deployment id where the contract's scheme has it) differs; distinct_nontrivial = distinct (kind, delivered(base), delivered(mutant)) triples; " +
 			"evaluations = non-trivial pairs whose signing bytes were compared + code-classified (VerifyAgainstTX) pairs + global collision look-ups + id observations checked against the high-water mark. " +
-			"part 2: seeded ABCI histories of the real app over 2-3 EVM chains (jobs, snapshot changes, gas estimates with fee attachment, evidence/removal, pruning, scheduled balance/reference-block messages, chain removal and re-addition through governance), interleaved with direct calls of the consensus keeper's public queue API (PutMessageInQueue with MsgIDToReplace = a live id of the queue / a just-removed id / a long-gone id / an id living in another chain's queue / a never-issued id; DeleteJob), each on a cache context written back only on success",
+			"part 2: seeded ABCI histories of the real app over 2-3 EVM chains (jobs, snapshot changes, gas estimates with fee attachment, evidence/removal, pruning, scheduled balance/reference-block messages, chain removal and re-addition through governance), interleaved with direct calls of the consensus keeper's public queue API (PutMessageInQueue with MsgIDToReplace = a live id of the queue / a just-removed id / a long-gone id / an id living in another chain's queue / a never-issued id; DeleteJob), each on a cache context written back only on success. " +
+			"part 3: one bridge world (2 chains x 2 tokens) per registration history of the target chain (activated once / late activation of a not-newer compass / compass upgrade / upgrade then late activation of the old version / chain removed and re-added by governance / ... and re-activated): batches are built by the end-blocker, estimates sent by > 2/3 are elected before and after the history step (real UpdateBatchGasEstimate), further batches built afterwards; " +
+			"every batch that was issued or re-issued since the last block is read as handed out (BatchRequestByNonce, OutgoingTxBatches) and its bytes to sign compared with the monitor's own checkpoint encoder for the deployment id in the evm chain info, and with the checkpoints for every other id of the case",
 		Assumptions: []string{
 			"keccak256 collision resistance; pairs are sampled, not exhaustive",
 			"values that are equal as delivered are not changes: address spellings normalised by HexToAddress, gas estimate 0 is delivered as 300000, missing fees are delivered as 100000 each, a deployment id is the bytes32 the contract stores",
 			"UploadSmartContract (plain deployment, nothing verifies signatures remotely) is checked for bytecode and id only",
 			"which compass functions include compass_id in the signed hash is taken from the public Compass contract (table in encode.go)",
 			"ids created and removed inside one block without a put log line are not observable",
+			"part 3 judges the bytes to sign of a batch at the moments they are issued (batch build) or re-issued (estimate election) against the deployment id registered in the evm chain info at that moment; bytes issued earlier and left untouched by a later registration change are not judged; a chain without registration binds nothing",
 		},
 		Exhaustive:  func(string) bool { return false },
 		Cases:       cases,
 		Run:         run,
-		MinCounters: []string{"pairs_delivered_changed", "calibration_ok", "pairs/Batch", "ids_issued", "ids_replaced_in_place", "ids_removed", "api/replace_live", "api/replace_removed", "api/replace_foreign", "api/replace_future"},
+		MinCounters: []string{"pairs_delivered_changed", "calibration_ok", "pairs/Batch", "ids_issued", "ids_replaced_in_place", "ids_removed", "api/replace_live", "api/replace_removed", "api/replace_foreign", "api/replace_future",
+			"dep/issues_judged/batch-build", "dep/issues_judged/estimate-election", "dep/issues_judged_after_history", "dep/issues_judged_registered_id_not_last_activated/estimate-election"},
 		TimeoutS:    2400,
 	})
 }
